@@ -14,6 +14,7 @@ from vf import gen as G, oracle as O, snapshot as S
 from vf.checks.common import Case, call, exc_text
 
 ID = "C20"
+TECHNIQUE = "runtime monitoring: state hook on the matplotlib Axes after plotting, paths parsed back and compared with the exact snapshot"
 LEVEL = "exploration"
 RULE = ("random shapes of every kind (simple, connected, disjoint, unbounded, Empty, Whole) with segments of degree "
         "1, 2, 3 and mixed chains, all numeric kinds, plotted on a fresh Agg figure; non-trivial = a shape with at least "
